@@ -1,4 +1,5 @@
 import SJ.Proofs.Facts
+import SJ.Proofs.Edit
 /-
 C13 — In-place replacement changes exactly the addressed value.
 -/
@@ -17,5 +18,42 @@ theorem C13_bool_gate : swSetBool = [[[cTagBoolTrue, cTagBoolFalse, cTagNull]]] 
 theorem C13_null_gates_partial :
     swSetNull = [[[cTagBoolTrue, cTagBoolFalse, cTagNull], [cTagString, cTagFloat, cTagInteger, cTagUint],
                   [cTagObjectStart, cTagArrayStart, cTagRoot], [256]]] := Facts.set_null_gates
+
+open SJ.Layout
+
+/-- **Replacement changes exactly the addressed value.** For every located document `v` held by the tape (any
+    depth, any gaps from earlier edits), every two-word scalar node at `q`, every iterator positioned on it whose
+    tag passes the gate: the call succeeds, and the new tape holds `v` with exactly that node replaced — siblings,
+    keys, order and nesting untouched (they are the same tree). -/
+theorem C13_setInt (pj : PJ) (v : LVal) (hok : Ok pj v) (q : Nat) (hnode : HasNode q (q + 2) v) (i : Iter)
+    (hoff : i.off = q + 1) (ht : inCase (caseOf swSetInt 0) i.t = true) (z : Int) :
+    ∃ pj' i', i.setInt pj z = .ok (pj', i') ∧ Ok pj' (substV q (.int (ofInt64 z) q) v) ∧
+      pj'.strings = pj.strings ∧ pj'.msg = pj.msg ∧ pj'.tape.size = pj.tape.size := setInt_doc pj v hok q hnode i hoff ht z
+theorem C13_setUInt (pj : PJ) (v : LVal) (hok : Ok pj v) (q : Nat) (hnode : HasNode q (q + 2) v) (i : Iter)
+    (hoff : i.off = q + 1) (ht : inCase (caseOf swSetUInt 0) i.t = true) (z : UInt64) :
+    ∃ pj' i', i.setUInt pj z = .ok (pj', i') ∧ Ok pj' (substV q (.uint z q) v) ∧
+      pj'.strings = pj.strings ∧ pj'.msg = pj.msg ∧ pj'.tape.size = pj.tape.size := setUInt_doc pj v hok q hnode i hoff ht z
+theorem C13_setFloat (pj : PJ) (v : LVal) (hok : Ok pj v) (q : Nat) (hnode : HasNode q (q + 2) v) (i : Iter)
+    (hoff : i.off = q + 1) (ht : inCase (caseOf swSetFloat 0) i.t = true) (bits : UInt64) :
+    ∃ pj' i', i.setFloat pj bits = .ok (pj', i') ∧ Ok pj' (substV q (.float bits 0 q) v) ∧
+      pj'.strings = pj.strings ∧ pj'.msg = pj.msg ∧ pj'.tape.size = pj.tape.size := setFloat_doc pj v hok q hnode i hoff ht bits
+theorem C13_setBool (pj : PJ) (v : LVal) (hok : Ok pj v) (q : Nat) (hnode : HasNode q (q + 1) v) (i : Iter)
+    (hoff : i.off = q + 1) (ht : inCase (caseOf swSetBool 0) i.t = true) (b : Bool) :
+    ∃ pj' i', i.setBool pj b = .ok (pj', i') ∧ Ok pj' (substV q (.bool b q) v) ∧
+      pj'.strings = pj.strings ∧ pj'.msg = pj.msg ∧ pj'.tape.size = pj.tape.size := setBool_doc pj v hok q hnode i hoff ht b
+theorem C13_setNull_scalar (pj : PJ) (v : LVal) (hok : Ok pj v) (q : Nat) (hnode : HasNode q (q + 2) v) (i : Iter)
+    (hoff : i.off = q + 1) (ht0 : inCase (caseOf swSetNull 0) i.t = false) (ht : inCase (caseOf swSetNull 1) i.t = true) :
+    ∃ pj' i', i.setNull pj = .ok (pj', i') ∧ Ok pj' (substV q (.null q) v) ∧
+      pj'.strings = pj.strings ∧ pj'.msg = pj.msg ∧ pj'.tape.size = pj.tape.size := setNull_scalar_doc pj v hok q hnode i hoff ht0 ht
+/-- A disallowed call returns an error; the model being functional, there is no new tape. -/
+theorem C13_gate_int (pj : PJ) (i : Iter) (z : Int) (ht : inCase (caseOf swSetInt 0) i.t = false) :
+    i.setInt pj z = .error .generic := setInt_gate pj i z ht
+theorem C13_gate_bool (pj : PJ) (i : Iter) (b : Bool) (ht : inCase (caseOf swSetBool 0) i.t = false) :
+    i.setBool pj b = .error .generic := setBool_gate pj i b ht
+theorem C13_gate_null (pj : PJ) (i : Iter) (h0 : inCase (caseOf swSetNull 0) i.t = false)
+    (h1 : inCase (caseOf swSetNull 1) i.t = false) (h2 : inCase (caseOf swSetNull 2) i.t = false) :
+    i.setNull pj = .error .generic := setNull_gate pj i h0 h1 h2
+/-- the located relation means what Layout says: the tape region is exactly the encoding of the erased document -/
+theorem C13_located_sound (pj : PJ) (v : LVal) (h : Ok pj v) : ValAt pj (erase v) v.pos v.fin := ok_valAt pj v h
 
 end SJ.Properties.C13
